@@ -55,7 +55,7 @@ def expected : List Gen.FnFact := [
     stages := ["tokenize", "parse", "loadImports", "compile (imports)", "run (imports)", "compile", "run"], bareErr := 0 },
   { name := "VM.Load", recovers := false,
     unprot := [".codeDump", ".run", ".treeDump", "compilePkgs"],
-    stages := ["load", "compile", "run"], bareErr := 0 },
+    stages := ["load", "compile", "run", "run"], bareErr := 0 },   -- the second "run": values left by top-level code
   { name := "VM.Call", recovers := false, unprot := [".Func", ".Get"], stages := [], bareErr := 0 },
   { name := "VM.Func", recovers := true, unprot := [".btErr"], stages := [], bareErr := 0 },
   { name := "VM.run", recovers := true, unprot := [".btErr"], stages := [], bareErr := 0 },
